@@ -198,6 +198,23 @@ def outcomes(spec, tag, value_srcs, input_srcs, ref_form="object", bytes_in=None
             out[f"unmarshal#{i}"] = _o(run("op_unmarshal", T, x))
         for i, b in (bytes_in if bytes_in is not None else enc).items():
             out[f"decode#{i}"] = _o(run("op_decode", T, b))
+        # sequel, caches and evaluated references still warm: *new* annotations built around the same root
+        # (their type graphs have not been built yet) must be just as transparent
+        if ref_form == "object" and not isinstance(T, str):
+            for sname, T2, wrapv in (("list", list[T], lambda z: [z]), ("dict", dict[str, T], lambda z: {"k": z}),
+                                     ("tuple", tuple[int, T], lambda z: (1, z))):
+                for i, src in enumerate(value_srcs[:2]):
+                    try:
+                        v = mat.eval(src)
+                    except Exception:
+                        continue
+                    out[f"sequel-{sname}-marshal#{i}"] = _o(run("op_marshal", T2, wrapv(v)))
+                for i, src in enumerate(input_srcs[:5]):
+                    try:
+                        x = inputs.eval_src(src, mat)
+                    except Exception:
+                        continue
+                    out[f"sequel-{sname}-unmarshal#{i}"] = _o(run("op_unmarshal", T2, list(wrapv(x)) if sname == "tuple" else wrapv(x)))
         _sys.modules.pop(f"c11_issuer_{tag}", None)
     return out, enc
 
@@ -250,11 +267,11 @@ def check_case(base_name, base, chain, position, data, col, counter):
         except Exception as e:  # building the wrapped program itself failed in the harness
             col.label("harness:wrapped-program-failed:" + type(e).__name__)
             continue
-        diffs = [k for k in ref_t if got.get(k) != ref_t[k]]
+        diffs = [k for k in ref_t if (k in got or not k.startswith("sequel-")) and got.get(k) != ref_t[k]]
         if diffs:
             k = diffs[0]
             idx = int(k.split("#")[1])
-            src = (vals if k.startswith(("marshal", "encode", "decode")) else ins)[idx]
+            src = (vals if ("marshal" in k and "unmarshal" not in k) or k.startswith(("encode", "decode")) else ins)[idx]
             col.violation("transparent", case,
                           f"{base_name} wrapped by {'>'.join(chain)} at {position} [{form}]: {k} on {src[:80]}: wrapped -> {_s(got.get(k))}, plain -> {_s(ref_t[k])}",
                           bucket=f"{k.split('#')[0]}|{chain[-1] if chain else ''}|{position}|{form.split(':')[0]}|{_s(got.get(k))[:30]}")
@@ -338,7 +355,7 @@ def replay(clause, case, col):
     ref_t, enc = outcomes(spec_t, tag, case["values"], case["inputs"])
     got, _ = outcomes(spec_w, tag, case["values"], case["inputs"], ref_form=case["form"], bytes_in=enc)
     col.ev()
-    diffs = [k for k in ref_t if got.get(k) != ref_t[k]]
+    diffs = [k for k in ref_t if (k in got or not k.startswith("sequel-")) and got.get(k) != ref_t[k]]
     if diffs:
         k = diffs[0]
         col.violation("transparent", case, f"{k}: wrapped -> {_s(got.get(k))}, plain -> {_s(ref_t[k])}", bucket=k.split("#")[0])
